@@ -44,6 +44,9 @@ Definition transform_tag (name : node) (s : st) : node * st :=
       else if N.eqb c (e_unres E) then
         let '(h, s) := import_from_vue "resolveComponent" s in (mk_call h [mk_str n], s)
       else (name, s)
+  | JNs (IdName ns) (IdName nm) =>
+      (mk_str (ns ++ [58] ++ nm),
+       add_diag "Namespace tags are not supported. Vue's JSX doesn't have namespace semantics." s)
   | _ => (name, s)
   end.
 
@@ -151,9 +154,8 @@ Definition plain_attr_value (value : node) : option node :=
   match value with
   | NScalar JNull => Some (Bool true)
   | Str v _ => Some (mk_str (transform_text v))
-  | JExprC e => Some e                      (* incl. JEmpty: Expr::JSXEmpty *)
-  | JsxE _ _ _ _ _ _ => Some value
-  | JsxF _ => Some value
+  | JExprC e => Some e                      (* incl. JEmpty: Expr::JSXEmpty; also an element
+                                               value, which lower_el has lowered beforehand *)
   | _ => None
   end.
 
@@ -450,10 +452,31 @@ Fixpoint lower_el (n : node) (s : st) {struct n} : node * st :=
             end in
           let '(r', s) := lower_children r s in (o ++ r', s)
       end in
+  (* a JSX element / fragment written directly as the value of a plain attribute is lowered
+     when the attribute fold reaches it; doing all of them before the fold only permutes
+     diagnostics (compared as a multiset) *)
+  let lower_attr_values :=
+    fix lower_attr_values (l : list node) (s : st) {struct l} : list node * st :=
+      match l with
+      | [] => ([], s)
+      | a :: r =>
+          let '(a', s) :=
+            match a with
+            | JAttr nm ((JsxE _ _ _ _ _ _) as v) =>
+                if is_directive a then (a, s)
+                else let '(x, s) := lower_el v s in (JAttr nm (JExprC x), s)
+            | JAttr nm ((JsxF _) as v) =>
+                if is_directive a then (a, s)
+                else let '(x, s) := lower_el v s in (JAttr nm (JExprC x), s)
+            | _ => (a, s)
+            end in
+          let '(r', s) := lower_attr_values r s in (a' :: r', s)
+      end in
   match n with
-  | JsxE name attrs _ _ children _ =>
+  | JsxE name attrs0 _ _ children _ =>
       let s := if o_optimize O then set_slot_stack (slot_stack s ++ [false]) s else s in
       let is_comp := is_component name in
+      let '(attrs, s) := lower_attr_values attrs0 s in
       let ar := transform_attrs attrs is_comp s in
       let '(tag, s) := transform_tag name (r_st ar) in
       let '(elems, s) := lower_children children s in
